@@ -51,10 +51,6 @@ Definition relerr_ok (eps tolsq : Qc) (X : dense Qc) (T : ttensor Qc) : bool :=
 
 Definition ranks_are (T : ttensor Qc) (ranks : list nat) : bool :=
   nvec_eqb (map (fun U => ncols U) (tfactors T)) ranks && nvec_eqb (dshape (tcore T)) ranks.
-(* what hosvd.py:126 produces for user ranks (A-32): min(ranks+1, size) columns *)
-Definition ranks_plus_one (T : ttensor Qc) (shp ranks : list nat) : bool :=
-  nvec_eqb (map (fun U => ncols U) (tfactors T)) (map (fun p => Nat.min (fst p + 1) (snd p)) (combine ranks shp)).
-
 (* eigen certificate for a symmetric matrix G (n x n): W orthonormal, G W = W diag(mu) within eps*scale, mu descending *)
 Fixpoint qdesc (l : list Qc) : bool :=
   match l with x :: ((y :: _) as r) => qleb y x && qdesc r | _ => true end.
@@ -80,7 +76,7 @@ Definition auto_ranks_ok (eps tolsq : Qc) (sequential : bool) (X : dense Qc) (or
      let G := qgram (seen_at sequential X order (tfactors T) p) k in
      let '(W, mu) := nth p certs ([], []) in
      eig_cert eps G W mu &&
-     opt_eqb Nat.eqb (ncols_spec q0 Qcplus qltb 0 mu thresh) (Some (ncols (nth k (tfactors T) []))))
+     opt_eqb Nat.eqb (ncols_impl q0 Qcplus qltb 0 mu thresh) (Some (ncols (nth k (tfactors T) []))))
    (seq 0 d).
 
 (* tucker_als: reported fit vs recomputed: (1 - fit)^2 ||X||^2 = ||X - T||^2 *)
